@@ -10,15 +10,16 @@
     default one or a user-chosen directory unrelated to the storage root and disjoint from all
     object roots; objects lie strictly inside the storage root and are not nested (what the guard
     [validate_object_root] maintains: C03_invariants_preserved); version directories are named
-    v<digits>.  Known finding excluded: an external mv whose named source lies in the repository. *)
-From Rocfl Require Import Base.Bytes Model.FsOps Generated.Consts Model.Footprint Model.KnownC12 Model.KnownC03
+    v<digits>; the named sources of an external mv contain no symbolic link ([o_csrcs] = [o_srcs]:
+    the refusal of sources inside the repository decides on the canonical paths). *)
+From Rocfl Require Import Base.Bytes Model.FsOps Generated.Consts Model.Footprint
   Proofs.FootprintFacts Proofs.FootprintPaths Proofs.FootprintGuard Proofs.FootprintCommitted Proofs.FootprintGen
   Proofs.FootprintMain.
 Open Scope N_scope.
 
 (** the core: no operation other than purge has a target inside a committed version directory *)
 Theorem C03_allowed_disjoint_from_committed : forall c s o f p,
-  env_ok c s -> hex_ok (o_hex o) = true -> c03_mv_source_in_repo c o = false ->
+  env_ok c s -> hex_ok (o_hex o) = true -> (o_kind o = KMvExt -> o_csrcs o = o_srcs o) ->
   o_kind o <> KPurge -> (o_kind o = KInit -> p_objs s = []) ->
   allowed c s o f = true -> In p (targets f) -> in_committed s p = false.
 Proof. exact allowed_not_in_committed. Qed.
@@ -27,7 +28,7 @@ Print Assumptions C03_allowed_disjoint_from_committed.
 (** ... and the only entries of an existing object it touches at all are the root inventory,
     its sidecar, a declaration (upgrade) and the version directory that does not exist yet *)
 Theorem C03_only_root_entries_touched : forall c s o f m p,
-  env_ok c s -> hex_ok (o_hex o) = true -> c03_mv_source_in_repo c o = false ->
+  env_ok c s -> hex_ok (o_hex o) = true -> (o_kind o = KMvExt -> o_csrcs o = o_srcs o) ->
   o_kind o <> KPurge -> (o_kind o = KInit -> p_objs s = []) ->
   allowed c s o f = true -> In m (p_objs s) -> In p (targets f) ->
   below (m_root m) p = true -> exists sg, p = m_root m ++ [sg] /\ root_entry_ok o m sg = true.
@@ -59,19 +60,22 @@ Proof. exact gen_prefix_allowed. Qed.
 Print Assumptions C03_model_trace_allowed.
 
 Theorem C03_model_trace_respects_committed : forall c s o g k,
-  env_ok c s -> c03_mv_source_in_repo c o = false -> o_kind o <> KPurge -> (o_kind o = KInit -> p_objs s = []) ->
+  env_ok c s -> (o_kind o = KMvExt -> o_csrcs o = o_srcs o) -> o_kind o <> KPurge -> (o_kind o = KInit -> p_objs s = []) ->
   gin_ok c s o g = true ->
   Forall (fun x => forall p, In p (targets (snd x)) -> in_committed s p = false) (firstn k (gen c o g)).
 Proof. exact gen_not_in_committed. Qed.
 Print Assumptions C03_model_trace_respects_committed.
 
-(** the excluded class is a genuine defect (known finding): the named source of an external mv
-    inside a committed version directory is renamed away *)
-Theorem C03_known_mv_source_refuted :
-  c03_mv_source_in_repo ex_c ex_mv = true /\ allowed ex_c ex_s ex_mv ex_mv_call = true /\
-  in_committed ex_s ex_src = true /\ In ex_src (targets ex_mv_call).
-Proof. exact known_mv_source_witness. Qed.
-Print Assumptions C03_known_mv_source_refuted.
+(** an external mv whose named source is part of the repository is refused (fix 128b230): the
+    rename of a committed content file is outside the footprint *)
+Theorem C03_mv_source_in_repo_refused :
+  mv_refused ex_c ex_mv = true /\ in_committed ex_s ex_src = true /\
+  allowed ex_c ex_s ex_mv ex_mv_call = false /\
+  allowed ex_c ex_s ex_mv (CreateNew (lockf ex_c ex_mv)) = false /\
+  allowed ex_c ex_s ex_mv_outside
+    (Rename [b "home"; b "u"; b "m.txt"] (S_o ex_c ex_mv ++ [b "v2"; b "content"; b "m.txt"])) = true.
+Proof. exact mv_source_in_repo_refused. Qed.
+Print Assumptions C03_mv_source_in_repo_refused.
 
 (** non-vacuity: a concrete repository with one object, a commit of its second version and the
     commit of a new object satisfy all hypotheses *)
@@ -80,7 +84,7 @@ Proof. exact ex_env_ok. Qed.
 
 Example C03_nonvacuous_gen :
   gin_ok ex_c ex_s ex_commit ex_gin = true /\ gin_ok ex_c ex_s ex_new ex_gin_new = true
-  /\ c12_mv_source_in_repo ex_c ex_commit = false
+  /\ op_runs ex_c ex_commit = true
   /\ List.length (gen ex_c ex_commit ex_gin) = 35%nat /\ List.length (gen ex_c ex_new ex_gin_new) = 28%nat.
 Proof. exact ex_gin_ok. Qed.
 
